@@ -46,6 +46,12 @@ fn key_pool() -> Vec<String> {
     let mut v: Vec<String> = (0..12).map(|i| format!("k{}", i)).collect();
     v.push("ké".to_string());
     v.push("num".to_string());
+    // key records longer than the 250-byte write buffer, and several records that share one flush: a kill between two
+    // flushes leaves a record that is only partly on disk
+    v.push("L".repeat(300));
+    for i in 0..4 {
+        v.push(format!("customer-number-{}-{}", i, "k".repeat(40)));
+    }
     v
 }
 
@@ -79,6 +85,8 @@ pub fn fixed_family() -> Vec<Case> {
         vec![Ch::New { key: "k9".into(), len: 40 }, Ch::Update { key: "k0".into(), len: 300 }, Ch::Remove { key: "k1".into() }],
         vec![Ch::Inc { key: "num".into() }, Ch::Update { key: "k2".into(), len: 120 }],
         vec![Ch::Remove { key: "k2".into() }, Ch::New { key: "k2".into(), len: 40 }],
+        vec![Ch::New { key: "L".repeat(300), len: 300 }],
+        (0..6).map(|i| Ch::New { key: format!("customer-number-{}-{}", i, "k".repeat(40)), len: 300 }).collect(),
     ];
     for before in [small, many, big] {
         for reclaim_before in [false, true] {
@@ -212,7 +220,8 @@ pub fn run_case(ctx: &Ctx, case: &Case) -> Outcome {
                 if !pair_ok(l, b, af) {
                     let untouched = b == af;
                     let kind = if b.is_none() && af.is_none() {
-                        "key-never-stored-appears"
+                        // (a key record that is only partly on disk: its length field arrived, its name did not)
+                        if !k.is_empty() && k.chars().all(|c| c == '\0') { "key-of-nul-bytes-appears" } else { "key-never-stored-appears" }
                     } else if l.is_none() {
                         if untouched { "untouched-key-lost" } else { "persisted-key-lost" }
                     } else if untouched {
@@ -227,6 +236,10 @@ pub fn run_case(ctx: &Ctx, case: &Case) -> Outcome {
                             "old-value-under-new-version"
                         } else if lv.is_some() && lv == af.map(|x| &x.0) {
                             "new-value-under-old-version"
+                        } else if b.is_none() && af.map(|x| x.0.len()).unwrap_or(0) >= 250 {
+                            // a key that is new to the disk: its value was written through before its record was appended, so
+                            // a wrong value can only come from the record itself (name on disk, version and address not yet)
+                            "new-key-record-partly-on-disk"
                         } else if af.map(|x| x.0.len()).unwrap_or(0) >= 250 {
                             "written-through-value-not-on-disk"
                         } else {
